@@ -149,6 +149,12 @@ frg::expected<format_error> printf_format(A agent, const char *s, va_struct *vsp
 			++s;
 			FRG_ASSERT(*s);
 			opts.minimum_width = pop_arg<int>(vsp, &opts);
+			// A negative width argument is a '-' flag followed by a positive width.
+			if(opts.minimum_width < 0) {
+				opts.left_justify = true;
+				opts.minimum_width = static_cast<int>(0u
+						- static_cast<unsigned int>(opts.minimum_width));
+			}
 		}else{
 			int w = 0;
 			while(*s >= '0' && *s <= '9') {
@@ -166,7 +172,10 @@ frg::expected<format_error> printf_format(A agent, const char *s, va_struct *vsp
 			if(*s == '*') {
 				++s;
 				FRG_ASSERT(*s);
-				opts.precision = pop_arg<int>(vsp, &opts);
+				// A negative precision argument is taken as if the precision were omitted.
+				int value = pop_arg<int>(vsp, &opts);
+				if(value >= 0)
+					opts.precision = value;
 			}else{
 				int value = 0;
 				// If no integer follows the '.', then precision is taken to be zero
